@@ -562,6 +562,10 @@ func c17FreeReset(c *Ctx) int {
 
 func init() {
 	register(&Check{ID: "C17", Engine: "B", Run: func(c *Ctx) {
+		if msg := hollowFirst(); msg != "" {
+			// alias types first met in hollow form: the order in which values of a type arrive must not matter
+			c.Violation("hollow-value-seen-first", "after nil pointers / zero values of an alias type had been the first values of that type the library saw: "+msg, nil, 0)
+		}
 		type job struct {
 			cs   c17Case
 			args []reflect.Value
